@@ -787,6 +787,9 @@ static void ps(const char*s){printf(" s:");if(!*s)printf("-");for(;*s;++s)printf
 static double ud(uint64_t u){double d;memcpy(&d,&u,8);return d;}
 /* the interpreter's own formula of FSIGMOID (real.h): used only to attribute a value mismatch */
 static double vc19_sig(double x){ if (x >= 0.0) return 1.0 / (1.0 + exp(-x)); return exp(x) / (1.0 + exp(x)); }
+/* AQ with the square computed by a correctly rounded operation (glibc's pow(y,2.0) is within 1 ulp, not correctly
+   rounded): used only to attribute a value mismatch to the accuracy of libm */
+static double vc19_aq(double x,double y){ return x / sqrt(1.0 + y * y); }
 """
 
 CPP_PRELUDE = r"""
@@ -829,8 +832,9 @@ def sh_retry(cmd, timeout):
     raise OracleTimeout(" ".join(cmd[:2]))
 
 
-def compile_and_run(tag, progs, inputs_of):
-    """progs: [(id, root dom, c text)].  Returns (values {id: [str]}, compile_errors {id: msg})."""
+def compile_and_run(tag, progs, inputs_of, cc="gcc"):
+    """progs: [(id, root dom, c text)].  Returns (values {id: [str]}, compile_errors {id: msg}).
+       cc = "gcc" (the value oracle) | "clang" (second opinion on a mismatch)"""
     os.makedirs(WORK, exist_ok=True)
     errors = {}
     live = list(progs)
@@ -867,8 +871,8 @@ def compile_and_run(tag, progs, inputs_of):
         main.append("return 0;}")
         with open(src, "w") as f:
             f.write("\n".join(lines) + "\n" + "\n".join(pre) + "\n" + "\n".join(main) + "\n")
-        rc, so, se = sh_retry(["gcc", "-std=gnu11", "-O0", "-w", "-fno-builtin", "-ffp-contract=off", "-fmax-errors=0",
-                               src, "-o", exe, "-lm"], 1200)
+        rc, so, se = sh_retry((["gcc", "-fmax-errors=0"] if cc == "gcc" else ["clang-14", "-ferror-limit=0"]) +
+                              ["-std=gnu11", "-O0", "-w", "-fno-builtin", "-ffp-contract=off", src, "-o", exe, "-lm"], 1200)
         if rc == 0:
             vals, start = {}, 0
             order = [p[0] for p in live]
@@ -1214,7 +1218,7 @@ def run(chk, replay=None):
             if fn.endswith(".json"):
                 for item in json.load(open(os.path.join(cdir, fn))):
                     corpus.append(tuple_tree(item["tree"]))
-    forced_team, forced_stream = 0, None
+    forced_team, forced_stream, forced_inputs = 0, None, None
     if replay:
         r = json.load(open(replay))
         rp = r.get("replay", {})
@@ -1228,6 +1232,7 @@ def run(chk, replay=None):
             add(tuple_tree(rp["tree"]), "corpus",
                 (Genome.from_json(rp["genome"]), rp.get("layout", "?"), rp.get("share", "?")) if "genome" in rp else None)
             forced_stream = rp.get("stream_ops")
+            forced_inputs = rp.get("inputs")
     for t in corpus:
         add(t, "corpus")
     for fn in (sorted(os.listdir(cdir)) if os.path.isdir(cdir) and not replay else []):
@@ -1414,6 +1419,8 @@ def run(chk, replay=None):
     p_extra = 0.0 if replay else (0.03 if quick else 0.02)
     for pid, (t, origin) in enumerate(programs):
         ins = input_vectors(rng, nin)
+        if forced_inputs and len(programs) == 1:
+            ins = forced_inputs           # a replay evaluates the program on the recorded input vectors
         inputs_of[pid] = ins
         lines.append(harness_line(syms, genomes[pid][0], ins))
         what_line.append(("prog", pid))
@@ -1876,10 +1883,20 @@ def run(chk, replay=None):
     # `value-<cause>`; however much a later discontinuous primitive amplified the difference.  Any
     # other mismatch stays an unmatched `value` violation.
     CAUSES = {"sigmoid-formula": ("real::sigmoid", "vc19_sig(%%1%%)"),
-              "sife-address": ("str::ife", lambda n: "(strcmp(%%1%%,%%2%%)==0 ? %%3%% : %%4%%)" if n[2][0] == "S" else None)}
+              "sife-address": ("str::ife", lambda n: "(strcmp(%%1%%,%%2%%)==0 ? %%3%% : %%4%%)" if n[2][0] == "S" else None),
+              "libm-pow-square": ("real::aq", "vc19_aq(%%1%%,%%2%%)")}
+    # causes that are a limit of the ORACLE, not a property of the exported text: under a correctly rounded libm
+    # pow(y, 2.0) IS y * y (glibc's pow is only within 1 ulp: pow(-123456789.0, 2.0) != -123456789.0 * -123456789.0);
+    # gcc 12 folds `0.0 - (double)strlen(s)` to `-(double)strlen(s)` at -O0 (-0.0 instead of +0.0 for an empty s),
+    # clang does not.  They are attributed as exactly as the findings: the text recompiled with the square computed by
+    # `*` / recompiled with clang must agree bit for bit with vita::run on every input; then the case is counted
+    # (`value_mismatch_explained_by_the_oracle:*`), not reported.
+    ORACLE_CAUSES = {"libm-pow-square"}
 
     def applicable(t):
         out = []
+        if "real::aq" in symbols_of(t):
+            out.append("libm-pow-square")
         if "real::sigmoid" in symbols_of(t):
             out.append("sigmoid-formula")
         if sife_on_strings(t):
@@ -1892,29 +1909,39 @@ def run(chk, replay=None):
                     and bitsd(int(g[2:])) == 0.0 and bitsd(int(w[2:])) == 0.0)
                    for g, w in zip(got, values[p]))
 
-    variants, vin = [], {}          # (variant id, pid, causes)
-    for pid in sorted({pid for pid, _, _, _ in mism}):
-        t = programs[pid][0]
-        if texts[pid][0] != oracle_text(syms, t, 0, False):
+    def subsets_of(cs, with_empty):
+        out = [[]] if with_empty else []
+        for size in range(1, len(cs) + 1):
+            for mask in range(1, 1 << len(cs)):
+                sub = [c for i, c in enumerate(cs) if mask >> i & 1]
+                if len(sub) == size:
+                    out.append(sub)
+        return out
+
+    cause_of = {}               # pid -> (causes, compiler)
+    for stage, cc in ((1, "gcc"), (2, "clang")):
+        variants, vin = [], {}          # (variant id, pid, causes)
+        for pid in sorted({pid for pid, _, _, _ in mism}):
+            t = programs[pid][0]
+            if pid in cause_of or texts[pid][0] != oracle_text(syms, t, 0, False):
+                continue
+            for sub in subsets_of(applicable(t), cc == "clang"):
+                vid = len(variants)
+                variants.append((vid, pid, sub))
+                vin[vid] = inputs_of[pid]
+        if not variants:
             continue
-        cs = applicable(t)
-        subsets = [[c] for c in cs] + ([cs] if len(cs) > 1 else [])
-        for sub in subsets:
-            vid = len(variants)
-            variants.append((vid, pid, sub))
-            vin[vid] = inputs_of[pid]
-    cause_of = {}
-    if variants:
         try:
-            v2, e2 = compile_and_run("run_attr", [(vid, result_dom(syms, programs[p][0]),
-                                                   oracle_text(syms, programs[p][0], 0, False,
-                                                               override={CAUSES[c][0]: CAUSES[c][1] for c in sub}))
-                                                  for vid, p, sub in variants], vin)
+            v2, e2 = compile_and_run("run_attr_%s" % cc,
+                                     [(vid, result_dom(syms, programs[p][0]),
+                                       oracle_text(syms, programs[p][0], 0, False,
+                                                   override={CAUSES[c][0]: CAUSES[c][1] for c in sub}))
+                                      for vid, p, sub in variants], vin, cc=cc)
             for vid, p, sub in variants:
                 if p not in cause_of and vid in v2 and same_values(p, v2[vid]):
-                    cause_of[p] = "+".join(sub)
+                    cause_of[p] = (sub, cc)
         except OracleTimeout:
-            chk.count("oracle_batches_skipped_timeout(gcc)")
+            chk.count("oracle_batches_skipped_timeout(%s)" % cc)
     for pid, j, g, w in mism:
         kind = "value"
         det = "compiled C text returns %s, the interpreter %s on input %s" % (g, w, " ".join(inputs_of[pid][j]))
@@ -1922,11 +1949,18 @@ def run(chk, replay=None):
             a, b = bitsd(int(g[2:])), bitsd(int(w[2:]))
             det += " (%r vs %r)" % (a, b)
         if pid in cause_of:
-            kind = "value-" + cause_of[pid]
+            sub, cc = cause_of[pid]
+            real = [c for c in sub if c not in ORACLE_CAUSES]
+            if not real:
+                chk.count("value_mismatch_explained_by_the_oracle:" + "+".join(
+                    sub + (["gcc-only(clang-14 agrees with the interpreter)"] if cc == "clang" else [])))
+                continue
+            kind = "value-" + "+".join(real)
             det += "; recompiled with " + " and ".join(
                 {"sigmoid-formula": "every FSIGMOID computed by the interpreter's formula (x<0: exp(x)/(1+exp(x)))",
-                 "sife-address": "every SIFE over strings comparing the text (strcmp) instead of the addresses"}[c]
-                for c in cause_of[pid].split("+")) + " the same text agrees bit for bit on every input"
+                 "sife-address": "every SIFE over strings comparing the text (strcmp) instead of the addresses",
+                 "libm-pow-square": "the square of AQ computed by a correctly rounded multiplication instead of glibc's pow"}[c]
+                for c in sub) + (" (clang-14)" if cc == "clang" else "") + " the same text agrees bit for bit on every input"
         fail(pid, 0, kind, det)
     chk.count("values_compared", nval)
     chk.count("values_skipped_interpreter_void", nvoid)
